@@ -5,6 +5,7 @@ import (
 	"fmt"
 	"os"
 	"os/exec"
+	"path/filepath"
 	"regexp"
 	"sort"
 	"strconv"
@@ -67,7 +68,7 @@ var reFrame = regexp.MustCompile(`(?m)^  (github\.com/sboehler/knut/[^\s(]+)`)
 
 // raceTier runs the race binary and turns every distinct report into a violation.
 func raceTier(e *core.Env, reps int) {
-	bin := "/verif/.cache/bin/kmc-race"
+	bin := filepath.Join(core.Root, ".cache", "bin", "kmc-race")
 	if _, err := os.Stat(bin); err != nil {
 		e.EngineError("race binary missing: %v", err)
 		return
